@@ -494,6 +494,11 @@ pub fn run(args: &[String]) -> i32 {
         .and_then(|p| std::fs::read(p).ok())
         .map(|b| serde_json::from_slice(&b).unwrap_or_else(|e| die(&format!("known findings file: {e}"))))
         .unwrap_or_default();
+    let miri: serde_json::Value = arg_val(args, "--miri-summary")
+        .and_then(|p| std::fs::read(p).ok())
+        .and_then(|b| serde_json::from_slice(&b).ok())
+        .unwrap_or_else(|| json!({"status": "not run in this tier"}));
+    let miri_violation = miri.get("status").and_then(|s| s.as_str()) == Some("violation");
     println!("C15 tier={tier_s} VERIF_SEED={seed} runs={total} jobs={jobs}");
 
     let dir = scratch_dir("run");
@@ -702,7 +707,7 @@ pub fn run(args: &[String]) -> i32 {
         "seed": seed,
         "level": "exploration",
         "wall_s": wall,
-        "violations": violations.len(),
+        "violations": violations.len() + miri_violation as usize,
         "coverage": {
             "evaluations": executions.max(1),
             "distinct_nontrivial": all_hashes.len(),
@@ -744,6 +749,7 @@ pub fn run(args: &[String]) -> i32 {
                 "model": ["std::thread::{scope,spawn,join} -> shuttle::thread", "std::sync::mpsc::channel -> shuttle mpsc behind ipt_verif_rt (recv_timeout = simulated timer)", "std::thread::available_parallelism -> value set by the simulator"]
             },
             "determinism_check": det,
+            "miri_leg": miri,
             "restarts_after_known_findings": rounds - 1,
             "known_findings_hit": known_hits,
             "exhaustive": false
